@@ -593,7 +593,8 @@ def gen_ir(rng, n_calls, family=None, rich=True, cfg=None):
     skel_to_id = {}
     unpacks = {}
     hashable = set()
-    KW = ["zeta", "alpha", "m10", "m9", "beta", "k2", "k10", "omega", "aa"]
+    # keyword names: lexical order differs from the given order; some coincide with parameter names used inside the engine
+    KW = ["zeta", "alpha", "m10", "m9", "beta", "k2", "k10", "omega", "aa", "f", "fn", "attempts", "exc_type", "node", "args", "kwargs", "retry", "value", "self_"]
 
     def new_scope():
         if rng.random() >= p_scope:
